@@ -2,6 +2,7 @@
 The tie between the two builder models (15): every represented expression is simulated (`sim_of_rep`).
 -/
 import Garnish.Lemmas.CompileTreeC4
+import Garnish.Lemmas.CompileTree19
 namespace Garnish.Abs.Tree
 open Garnish Garnish.Gen Garnish.Spec Garnish.Abs Garnish.Model.Parser Garnish.Model.Literals Garnish.Model.Build
 
@@ -24,6 +25,7 @@ theorem Rep.bounds : ∀ {lo hi i : Nat} {e : Expr F}, Rep pf tree bodies lo hi 
   | _, _, _, _, .prefixApply h _ _ hr => by have := hr.bounds; exact ⟨Nat.le_refl _, by omega, lt_of_get h⟩
   | _, _, _, _, .suffixApply h _ _ hl => by have := hl.bounds; exact ⟨by omega, by omega, lt_of_get h⟩
   | _, _, _, _, .infixApply h _ _ _ hl hr => by have := hl.bounds; have := hr.bounds; exact ⟨by omega, by omega, lt_of_get h⟩
+  | _, _, _, _, .side h _ _ _ _ _ _ hr => by have := hr.bounds; exact ⟨Nat.le_refl _, by omega, lt_of_get h⟩
   | _, _, _, _, .nested h _ _ _ hr => by have := hr.bounds; exact ⟨Nat.le_refl _, by omega, lt_of_get h⟩
   | _, _, _, _, .emptyNested h _ _ => ⟨Nat.le_refl _, by omega, lt_of_get h⟩
   | _, _, _, _, .cond h _ _ _ hl hr => by have := hl.bounds; have := hr.bounds; exact ⟨by omega, by omega, lt_of_get h⟩
@@ -98,6 +100,8 @@ theorem sim_of_rep : ∀ {lo hi i : Nat} {e : Expr F}, Rep pf tree bodies lo hi 
   | _, _, _, _, .infixApply h hd hl hr ha hb => by
     have b1 := ha.bounds; have b2 := hb.bounds
     exact sim_infixApply h hd hl hr ⟨b1.1, b1.2.1⟩ ⟨b2.1, b2.2.1⟩ b1.2.2 b2.2.2 (sim_of_rep ha) (sim_of_rep hb)
+  | _, _, _, _, .side h hl hr hx hps hd hrb hrep => by
+    have b := hrep.bounds; exact sim_side h hl hr hx hps hd hrb ⟨b.1, b.2.1⟩ b.2.2 (sim_of_rep hrep)
   | _, _, _, _, .nested h hd hr hbody hrep => by
     have b := hrep.bounds; exact sim_nested h hd hr ⟨b.1, b.2.1⟩ b.2.2 hbody hrep
   | _, _, _, _, .emptyNested h hd hr => sim_emptyNested h hd hr
